@@ -1,30 +1,114 @@
 // Native replay of a counterexample against the real crates (built with RUSTFLAGS="--cfg ldk_verif").
 // usage: verif-replay <module> <contract> <arg>...      prints Holds | Violated | Vacuous
+fn dispatch(module: &str, name: &str, args: &[u128]) -> Option<String> {
+	use lightning::verif_api as l;
+	use lightning_invoice::verif_api as i;
+	match module {
+		"ser" => l::ser::replay(name, args).map(|o| format!("{:?}", o)),
+		"msgs" => l::msgs::replay(name, args).map(|o| format!("{:?}", o)),
+		"wire" => l::wire::replay(name, args).map(|o| format!("{:?}", o)),
+		"onion_utils" => l::onion_utils::replay(name, args).map(|o| format!("{:?}", o)),
+		"inbound_payment" => l::inbound_payment::replay(name, args).map(|o| format!("{:?}", o)),
+		"chan_utils" => l::chan_utils::replay(name, args).map(|o| format!("{:?}", o)),
+		"tx_builder" => l::tx_builder::replay(name, args).map(|o| format!("{:?}", o)),
+		"router" => l::router::replay(name, args).map(|o| format!("{:?}", o)),
+		"package" => l::package::replay(name, args).map(|o| format!("{:?}", o)),
+		"invoice_ser" => i::ser::replay(name, args).map(|o| format!("{:?}", o)),
+		"invoice_de" => i::de::replay(name, args).map(|o| format!("{:?}", o)),
+		"invoice_lib" => i::lib::replay(name, args).map(|o| format!("{:?}", o)),
+		_ => None,
+	}
+}
+
+// xorshift64*: deterministic from the seed (VERIF_SEED)
+struct Rng(u64);
+impl Rng {
+	fn next(&mut self) -> u64 {
+		let mut x = self.0;
+		x ^= x >> 12;
+		x ^= x << 25;
+		x ^= x >> 27;
+		self.0 = x;
+		x.wrapping_mul(0x2545F4914F6CDD1D)
+	}
+}
+fn gen(r: &mut Rng, ty: &str) -> u128 {
+	let bits: u32 = match ty {
+		"bool" => 1,
+		"u8" => 8,
+		"u16" => 16,
+		"u32" => 32,
+		_ => 64,
+	};
+	let max: u128 = if bits == 64 { u64::MAX as u128 } else { (1u128 << bits) - 1 };
+	let v = r.next();
+	// boundary-biased: small values, values near powers of two / ten, near max, money-sized, or uniform
+	let out: u128 = match r.next() % 8 {
+		0 => (v % 4) as u128,
+		1 => max - (v % 4) as u128,
+		2 => {
+			let p = 1u128 << (r.next() % bits as u64);
+			(p + (v % 5) as u128).saturating_sub(2)
+		},
+		3 => {
+			let mut p: u128 = 1;
+			for _ in 0..(r.next() % 19) {
+				p *= 10;
+			}
+			(p + (v % 5) as u128).saturating_sub(2)
+		},
+		4 => (v % 1_000_000) as u128,
+		5 => (v % 21_000_000_0000_0000) as u128,
+		6 => (v % 100_000_000_000) as u128,
+		_ => v as u128,
+	};
+	out.min(max)
+}
+
+fn search(a: &[String]) {
+	// verif-replay --search <module> <contract> <types,comma> <seed> <n>
+	let (module, name) = (a[2].as_str(), a[3].as_str());
+	let types: Vec<&str> = a[4].split(',').collect();
+	let seed: u64 = a[5].parse().unwrap_or(0);
+	let n: u64 = a[6].parse().unwrap_or(100000);
+	let mut r = Rng(seed.wrapping_mul(0x9E3779B97F4A7C15) | 1);
+	let (mut holds, mut vac) = (0u64, 0u64);
+	for _ in 0..n {
+		let args: Vec<u128> = types.iter().map(|t| gen(&mut r, t)).collect();
+		let res = std::panic::catch_unwind(|| dispatch(module, name, &args));
+		let verdict = match res {
+			Ok(Some(s)) => s,
+			Ok(None) => {
+				eprintln!("unknown contract");
+				std::process::exit(2);
+			},
+			Err(_) => "Violated(panic)".to_string(),
+		};
+		if verdict.starts_with("Violated") {
+			println!("FOUND {} {}", verdict, args.iter().map(|v| v.to_string()).collect::<Vec<_>>().join(" "));
+			return;
+		} else if verdict == "Holds" {
+			holds += 1;
+		} else {
+			vac += 1;
+		}
+	}
+	println!("NONE holds={} vacuous={}", holds, vac);
+}
+
 fn main() {
 	let a: Vec<String> = std::env::args().collect();
+	if a.len() >= 7 && a[1] == "--search" {
+		search(&a);
+		return;
+	}
 	if a.len() < 3 {
 		eprintln!("usage: verif-replay <module> <contract> <args...>");
 		std::process::exit(2);
 	}
 	let args: Vec<u128> = a[3..].iter().map(|s| s.parse::<i128>().map(|v| v as u128).unwrap_or(0)).collect();
 	let name = a[2].as_str();
-	use lightning::verif_api as l;
-	use lightning_invoice::verif_api as i;
-	let out: Option<String> = match a[1].as_str() {
-		"ser" => l::ser::replay(name, &args).map(|o| format!("{:?}", o)),
-		"msgs" => l::msgs::replay(name, &args).map(|o| format!("{:?}", o)),
-		"wire" => l::wire::replay(name, &args).map(|o| format!("{:?}", o)),
-		"onion_utils" => l::onion_utils::replay(name, &args).map(|o| format!("{:?}", o)),
-		"inbound_payment" => l::inbound_payment::replay(name, &args).map(|o| format!("{:?}", o)),
-		"chan_utils" => l::chan_utils::replay(name, &args).map(|o| format!("{:?}", o)),
-		"tx_builder" => l::tx_builder::replay(name, &args).map(|o| format!("{:?}", o)),
-		"router" => l::router::replay(name, &args).map(|o| format!("{:?}", o)),
-		"package" => l::package::replay(name, &args).map(|o| format!("{:?}", o)),
-		"invoice_ser" => i::ser::replay(name, &args).map(|o| format!("{:?}", o)),
-		"invoice_de" => i::de::replay(name, &args).map(|o| format!("{:?}", o)),
-		"invoice_lib" => i::lib::replay(name, &args).map(|o| format!("{:?}", o)),
-		_ => None,
-	};
+	let out: Option<String> = dispatch(a[1].as_str(), name, &args);
 	match out {
 		Some(s) => println!("{}", s),
 		None => {
